@@ -15,6 +15,7 @@ fn main() {
         "C01" => main_for::<props::e2e::C01>(rest),
         "C12" => main_for::<props::poller::C12>(rest),
         "C13" => main_for::<props::poller::C13>(rest),
+        "C13-NS" => props::wholeproc::c13_ns_child(rest.first().map(|s| s.as_str()).unwrap_or("")),
         "C15" => main_for::<props::process::C15>(rest),
         "C15-CHILD" => props::process::c15_child(rest.first().map(|s| s.as_str()).unwrap_or("")),
         "C16" => main_for::<props::files::C16>(rest),
